@@ -909,7 +909,9 @@ def g_iter_nodes(R, tier):
             calls = v["calls"]
             ok = (len(calls) == 2 and calls[0]["branch"] is v["node"].body and calls[0]["converted"] is v["self_"].converted_body
                   and calls[1]["branch"] is v["node"].orelse and calls[1]["converted"] is v["self_"].converted_orelse)
-            R.check(f"{nm}/body-then-else-each-into-its-own-list/{sig}", ok, repr([(c_["branch"], c_["converted"]) for c_ in calls]))
+            R.check(f"{nm}/body-then-else-each-into-its-own-list/{sig}", ok, repr([(c_["branch"], c_["converted"]) for c_ in calls]),
+                    replay=dict(kind="srcs", srcs=["def f():\n    if 0:\n        yield 1\n    return 1\n", "if 1:\n    pass\nelse:\n    raise ValueError\n", "def f():\n    if 0:\n        pass\n    else:\n        pass\n    if 0:\n        del f\n",
+                                                   "while 0:\n    pass\nif '':\n    try:\n        pass\n    except Exception:\n        pass\n", "if None:\n    a, *b, *c = 1, 2\n"], expect="raises"))
             want = {"in-loop": dict(counter="innermost-loop", flag="innermost-loop"), "in-function": dict(counter="function", flag="function"),
                     "elsewhere": dict(counter="none", flag="never")}[place]
             R.check(f"{nm}/blocks-split-on-the-innermost-enclosing-level/{sig}", all(g == want for g in v["got"]), f"{v['got']} expected {want}",
@@ -970,7 +972,9 @@ def g_iter_nodes(R, tier):
                 calls = v["calls"]
                 ok = (len(calls) == 2 and calls[0]["branch"] is v["node"].body and calls[0]["converted"] is v["self_"].converted_body
                       and calls[1]["branch"] is v["node"].orelse and calls[1]["converted"] is v["self_"].converted_orelse)
-                R.check(f"{nm}/body-then-else-each-into-its-own-list/{sig}", ok, repr(calls)[:300])
+                R.check(f"{nm}/body-then-else-each-into-its-own-list/{sig}", ok, repr(calls)[:300],
+                        replay=dict(kind="srcs", srcs=["def f():\n    if 0:\n        yield 1\n    return 1\n", "if 1:\n    pass\nelse:\n    raise ValueError\n", "def f():\n    if 0:\n        pass\n    else:\n        pass\n    if 0:\n        del f\n",
+                                                   "while 0:\n    pass\nif '':\n    try:\n        pass\n    except Exception:\n        pass\n", "if None:\n    a, *b, *c = 1, 2\n"], expect="raises"))
                 if not ok:
                     continue
                 R.check(f"{nm}/body-split-on-this-loop/{sig}", v["got"][0] == dict(counter="this-loop", flag="this-loop"), repr(v["got"][0]),
@@ -1350,6 +1354,7 @@ def replay_skeleton(rp):
 
 REPLAY["skeleton"] = replay_skeleton
 REPLAY["src"] = c13.replay_src
+REPLAY["srcs"] = c13.replay_srcs
 
 from suites import thorough as _th
 GROUPS["thorough:skeletons"] = _th.bounded_from_replay("bounded/control-flow-skeletons-depth-2-x-6-schedules", replay_skeleton)
